@@ -268,6 +268,7 @@ func runC17(c *core.Ctx) {
 			b    map[string]any
 			want string
 		}{{"{{ 1.5 | round: p }}|{{ 12.75 | round: 24 }}|{{ 2.5 | round: 400 }}|{{ -0.125 | round: 40 }}|{{ 7 | round: 300 }}", map[string]any{"p": int64(9007199254740992)}, "1.5|12.75|2.5|-0.125|7"},
+			{"{{ 0 | round: 309 }}|{{ 0 | round: p }}|{{ '0' | round: 400 }}|{{ 0.0 | round: 2147483647 }}|{{ 3 | minus: 3 | round: 400 }}|{{ z | round: 310 }}", map[string]any{"p": int64(9007199254740992), "z": uint8(0)}, "0|0|0|0|0|0"},
 			{"{{ 14 | divided_by: d }}|{{ 14 | modulo: d }}|{{ d | plus: 1 }}|{{ d | times: 2 }}", map[string]any{"d": json.Number("7")}, "2|0|8|14"}, {"{{ 5 | divided_by: d }}|{{ d | plus: 0.5 }}", map[string]any{"d": json.Number("2.5")}, "2|3"},
 			{"{{ 14 | divided_by: d }}|{{ d | minus: 1 }}", map[string]any{"d": uintptr(7)}, "2|6"}, {"{{ 14 | divided_by: d }}|{{ 14.0 | divided_by: d }}", map[string]any{"d": gen.NInt(4)}, "3|3"}, {"{{ 14 | divided_by: d }}", map[string]any{"d": gen.NFloat(4)}, "3.5"},
 			{"{{ 5 | divided_by: d }}|{{ -5 | divided_by: d }}", map[string]any{"d": uint64(math.MaxUint64)}, "0|0"}, {"{{ 5 | divided_by: d }}", map[string]any{"d": uint64(1) << 63}, "0"}, {"{{ 7 | divided_by: d }}", map[string]any{"d": gen.NUint(2)}, "3"},
